@@ -115,6 +115,25 @@ def run(ctx):
         U = rand_kv(rng, p=p_, nint=1, maxmult=rng.randint(1, p_))
         P = rand_points(rng, kv_info(U)[1], 1)
         run_case(ctx, ser(dict(kind="degree", U=U, P=P, W=None, t=t_, mode="elevate")))
+    for i in range(budget(ctx, 10, 120)):
+        # reductions by two: (a) a curve that is representable one degree lower but not two — must be refused and left as it was;
+        # (b) forced reduction by two where an interior knot of multiplicity two disappears — one projection, not two
+        if i % 2 == 0:
+            p_ = rng.randint(1, 2)
+            U0 = rand_kv(rng, p=p_, nint=rng.randint(1, 2), maxmult=p_)
+            P0 = rand_points(rng, kv_info(U0)[1], rng.choice([1, 2]))
+            m = ctx["drv"].call("curve.deginc", *curve_args(U0, P0, None), 1)
+            if m[0] != "ok":
+                continue
+            U1, P1, _ = model_curve_state(m[1])
+            run_case(ctx, ser(dict(kind="degree", U=list(U1), P=[tuple(q) for q in P1], W=None, t=2, mode="reduce")))
+        else:
+            p_ = rng.randint(3, 4)
+            a, b = rand_interval(rng)
+            inner = sorted(rng.sample(GRID, rng.randint(1, 2)))
+            U = [a] * (p_ + 1) + [a + (b - a) * x for x in inner for _ in range(rng.choice([2, 2, 3]))] + [b] * (p_ + 1)
+            P = rand_points(rng, kv_info(U)[1], rng.choice([1, 2]))
+            run_case(ctx, ser(dict(kind="degree", U=U, P=P, W=None, t=2, mode="forced")))
     for i in range(budget(ctx, 70, 900)):
         mode = rng.choice(["elevate", "elevate", "setter", "roundtrip", "roundtrip", "roundtrip", "reduce", "forced", "invalid"])
         U, P, W = rand_curve(rng, pmax=3, nintmax=2, force_zero=(i % 6 == 0))
